@@ -52,12 +52,18 @@ package discovery
 //@ type Member
 //@   field tagsToIDsAndTopics  syncmap tag topicAndID keylen 32
 //@   field topicsToMemberViews syncmap topic *topicPeerView
+//@   field Membership, Broadcast, Send, Logger, ID config
 //@   invariant [config] this.Logger != nil && this.Send != nil && this.Broadcast != nil
 //@
 //@ type topicPeerView
 //@   field memberToView      syncmap uint16 []uint16
 //@   field responsesReceived syncmap uint16 struct{}
+//@   field receivedMsg, responses config
 //@   invariant [maps] this.memberToView != nil && this.responsesReceived != nil
+//@
+//@ type SilentSynchronizer
+//@   field PickMembers config
+//@   field startedSynchronizations syncmap string []uint16
 //@
 //@ func (*Member).HandleMessage
 //@   props C10 C07
